@@ -9,12 +9,12 @@ RowsB == <<<<2, -1>>, <<-3, 2>>>>
 RowsC == <<<<0, 3>>>>
 Con(cid, kind, rows, static, order, morder, model, res, rev, dict, kappa) ==
     [a |-> "con", c |-> cid, kind |-> kind, rows |-> rows, static |-> static, order |-> order, morder |-> morder,
-     model |-> model, res |-> res, rev |-> rev, dict |-> dict, kappa |-> kappa, lo |-> -1, hi |-> 2, smp |-> 0, mid |-> 0]
+     model |-> model, res |-> res, rev |-> rev, dict |-> dict, kappa |-> kappa, lo |-> -1, hi |-> 2, smp |-> 0, mid |-> 0, xonly |-> FALSE]
 \* a condition on a SHARED sampler object sid (Conditions.SDraws) and, with mid > 0, on a SHARED model object
 ConS(cid, kind, sid, static, morder, model, res, rev, dict, mid) ==
     [Con(cid, kind, <<>>, static, "xt", morder, model, res, rev, dict, 0) EXCEPT !.smp = sid, !.mid = mid]
 Ev(cid) == [a |-> "ev", c |-> cid, kind |-> "", rows |-> <<>>, static |-> FALSE, order |-> "", morder |-> "", model |-> <<>>,
-            res |-> "", rev |-> FALSE, dict |-> 0, kappa |-> 0, lo |-> 0, hi |-> 0, smp |-> 0, mid |-> 0]
+            res |-> "", rev |-> FALSE, dict |-> 0, kappa |-> 0, lo |-> 0, hi |-> 0, smp |-> 0, mid |-> 0, xonly |-> FALSE]
 \* what Solver.on_train_start does with every condition (static data is moved to the training device)
 Mv == [Ev(0) EXCEPT !.a = "mv"]
 KindsFor(res) == IF res \in {"per", "per0", "per_d"} THEN {"periodic"} ELSE IF res = "vec" THEN {"pinn"} ELSE {"pinn", "mean"}
@@ -40,15 +40,20 @@ Cands == << Con(1, "pinn", RowsA, TRUE, "xt", "xt", <<2, -1, 3>>, "u_f", FALSE, 
             [Con(12, "pinn", RowsA, FALSE, "tx", "xt", <<2, -3, 1>>, "echo", TRUE, 0, 0) EXCEPT !.mid = 1],
             \* 13, 14: one static sampler object that resamples every second use (make_static(resample_interval=2))
             ConS(13, "pinn", 3, TRUE, "xt", <<1, 1, 1>>, "u_f", FALSE, 1, 0),
-            ConS(14, "pinn", 3, TRUE, "tx", <<2, 0, -1>>, "echofg", FALSE, 2, 0) >>
-NC == 14
+            ConS(14, "pinn", 3, TRUE, "tx", <<2, 0, -1>>, "echofg", FALSE, 2, 0),
+            \* 15 - 17: the third dictionary holds user-wrapped functions f(x, t = 0) with a DEFAULT for t; 15 samples (x, t) points, 16 and 17
+            \* sample x only (their rows carry t = 0, the default) and use a model of x alone
+            Con(15, "pinn", RowsA, FALSE, "xt", "xt", <<1, 2, -1>>, "u_f", FALSE, 3, 0),
+            [Con(16, "pinn", <<<<2, 0>>, <<-1, 0>>, <<3, 0>>>>, FALSE, "xt", "xt", <<2, 0, 1>>, "u_f", FALSE, 3, 0) EXCEPT !.xonly = TRUE],
+            [Con(17, "mean", <<<<1, 0>>, <<-2, 0>>>>, TRUE, "xt", "xt", <<-1, 0, 2>>, "u_f", TRUE, 3, 0) EXCEPT !.xonly = TRUE] >>
+NC == 17
 Init == built = {} /\ evs = [i \in 1..NC |-> 0] /\ hist = <<>>
 Next == /\ Len(hist) < MaxOps
         /\ \/ \E i \in 1..NC : i \notin built /\ Cardinality(built) < 3 /\ built' = built \cup {i} /\ hist' = Append(hist, Cands[i]) /\ UNCHANGED evs
            \/ \E i \in built : evs[i] < 2 /\ evs' = [evs EXCEPT ![i] = @ + 1] /\ hist' = Append(hist, Ev(i)) /\ UNCHANGED built
            \/ built # {} /\ hist # <<>> /\ hist[Len(hist)].a # "mv" /\ hist' = Append(hist, Mv) /\ UNCHANGED <<built, evs>>
 Spec == Init /\ [][Next]_<<built, evs, hist>>
-Scenario == [dicts |-> <<[f |-> 1, g |-> 3], [f |-> 2, g |-> 1]>>, ops |-> hist]
+Scenario == [dicts |-> <<[f |-> 1, g |-> 3], [f |-> 2, g |-> 1], [f |-> 3, g |-> 1]>>, ops |-> hist]
 Emit == (Len(hist) = MaxOps /\ \A i \in built : evs[i] >= 1) => TLCSet(2, TLCGet(2) \cup {Scenario})
 Post == ndJsonSerialize(IOEnv.OUT_FILE, SetToSeq(IF Mode = "single" THEN SingleOK ELSE TLCGet(2)))
         /\ PrintT(<<"SCENARIOS", Cardinality(IF Mode = "single" THEN SingleOK ELSE TLCGet(2))>>)
